@@ -80,7 +80,7 @@ def space_strategy(method):
 
 @st.composite
 def corner_networks(draw):
-    kind = draw(st.sampled_from(["one", "two", "scalars", "edgeless", "star", "general", "general", "big", "big", "components"]))
+    kind = draw(st.sampled_from(["one", "two", "scalars", "edgeless", "star", "general", "general", "big", "big", "components", "components", "components"]))
     if kind == "one":
         return draw(gen.networks(min_n=1, max_n=1, volume_limit=2**60))
     if kind == "two":
@@ -126,6 +126,15 @@ def corner_networks(draw):
             inputs += [[ren[ix] for ix in t] for t in sub["inputs"]]
             out += [ren[ix] for ix in sub["output"]]
             sizes.update({ren[ix]: d for ix, d in sub["sizes"].items()})
+        if draw(st.booleans()):
+            # ... held together by nothing but one label that every tensor
+            # carries (a batch label, or a summed one): connected as given,
+            # in pieces once that label is factored out
+            for t in inputs:
+                t.append("Z")
+            sizes["Z"] = draw(st.integers(1, 3))
+            if draw(st.booleans()):
+                out.append("Z")
         return {"inputs": inputs, "output": out, "sizes": sizes}
     if kind == "big":
         return draw(gen.networks(min_n=9, max_n=40, max_rank=4, volume_limit=2**60))
@@ -188,7 +197,7 @@ def strategy(tier, sub=None):
 def budget(tier, sub=None):
     # (case_seconds: the wall-clock allowance of ONE case, generous because a case that
     # exhausts the first step budget is re-run with a 50x budget, which takes minutes)
-    return {"examples": 16000 if tier == "quick" else 320000, "shards": 16, "case_seconds": 3000, "timeout": 7200 if tier == "quick" else 10 * 3600}
+    return {"examples": 40000 if tier == "quick" else 320000, "shards": 16, "case_seconds": 3000, "timeout": 7200 if tier == "quick" else 10 * 3600}
 
 
 def pattern(inputs, output, sizes):
